@@ -72,6 +72,43 @@ func (ex *Exec) nativeCall(key string, callee *ssa.Function, c *ssa.CallCommon, 
 		r := vc.fresh(ex.pfx+"rand", "Int")
 		vc.assume("(and (>= " + r + " 0) (<= " + r + " 9223372036854775807))")
 		return Val{T: r}, true
+	case "sort.Slice":
+		// assumed contract of sort.Slice(x, less): the elements of x are permuted in place so that afterwards
+		// less(j, i) is false for all i < j (less is evaluated on the permuted slice); nothing else changes.
+		mi, ok1 := c.Args[0].(*ssa.MakeInterface)
+		mc, ok2 := c.Args[1].(*ssa.MakeClosure)
+		if !ok1 || !ok2 {
+			break
+		}
+		sl, ok := ex.typ(mi.X.Type()).Underlying().(*types.Slice)
+		if !ok || isStructType(sl.Elem()) {
+			break
+		}
+		note()
+		st := ex.curState
+		s := ex.val(mi.X).T
+		k, srt := ex.elemKey(sl.Elem())
+		as := "(Array Int (Array Int " + srt + "))"
+		E := ex.get(st, k, as)
+		A := sSel(E, "(sarr "+s+")")
+		A2 := vc.fresh(ex.pfx+"sorted", "(Array Int "+srt+")")
+		vc.ctr++
+		sp, spi := fmt.Sprintf("sortperm_%d", vc.ctr), fmt.Sprintf("sortinv_%d", vc.ctr)
+		vc.decls = append(vc.decls, "(declare-fun "+sp+" (Int) Int)", "(declare-fun "+spi+" (Int) Int)")
+		off, ln := "(soff "+s+")", "(slen_ "+s+")"
+		vc.assume(sImp(ex.curReach, fmt.Sprintf("(forall ((a Int)) (! (=> (or (< a %s) (>= a (+ %s %s))) (= (select %s a) (select %s a))) :pattern ((select %s a))))", off, off, ln, A2, A, A2)))
+		vc.assume(sImp(ex.curReach, fmt.Sprintf("(forall ((q Int)) (! (=> (and (<= 0 q) (< q %s)) (and (<= 0 (%s q)) (< (%s q) %s) (= (select %s (ix %s q)) (select %s (ix %s (%s q)))) (= (%s (%s q)) q))) :pattern ((%s q)) :pattern ((select %s (ix %s q)))))", ln, sp, sp, ln, A2, off, A, off, sp, spi, sp, sp, A2, off)))
+		vc.assume(sImp(ex.curReach, fmt.Sprintf("(forall ((q Int)) (! (=> (and (<= 0 q) (< q %s)) (and (<= 0 (%s q)) (< (%s q) %s) (= (%s (%s q)) q))) :pattern ((%s q))))", ln, spi, spi, ln, sp, spi, spi)))
+		vc.assume(sImp(ex.curReach, fmt.Sprintf("(forall ((q Int)) (! (=> (and (<= 0 q) (< q %s)) (= (select %s (ix %s q)) (select %s (ix %s (%s q))))) :pattern ((select %s (ix %s q)))))", ln, A, off, A2, off, spi, A, off)))
+		ex.permCheckElem(k, "(sarr "+s+")", true)
+		ex.set(st, k, as, sSto(E, "(sarr "+s+")", A2))
+		if body, ok := ex.closureBody(mc, ex.curState, []string{"sj", "si"}); ok {
+			vc.assume(sImp(ex.curReach, fmt.Sprintf("(forall ((si Int) (sj Int)) (=> (and (<= 0 si) (< si sj) (< sj %s)) (not %s)))", ln, body)))
+		} else {
+			vc.errorf("sort.Slice at %s: the less closure is not a single pure expression; sortedness is not assumed", vc.w.pos(pos))
+		}
+		vc.assumptions["sort.Slice leaves a permutation of the slice in which less(j,i) is false for all i<j; it writes nothing else"] = true
+		return Val{}, true
 	case "runtime.SetFinalizer":
 		note()
 		return Val{}, true
